@@ -43,7 +43,14 @@ EXTRA_THEOREMS += [
     "PymotoVerif.C07.linsolve_adjoint", "PymotoVerif.C07.linsolve_sens_eq", "PymotoVerif.C07.linsolve_finite_identity",
     "PymotoVerif.C07.inverse_adjoint", "PymotoVerif.C07.inverse_finite_identity", "PymotoVerif.C07.soe_adjoint",
     "PymotoVerif.C07.staticcond_adjoint",
-    "PymotoVerif.C11.eig_dense_adjoint_partial", "PymotoVerif.C11.eig_sparse_eigval_adjoint",
+    "PymotoVerif.C11.eig_dense_adjoint", "PymotoVerif.C11.eig_dense_sens_is_derivative",
+    "PymotoVerif.C11.eig_dense_adjoint_linearised", "PymotoVerif.C11.eig_dense_adjoint_sum_linearised",
+    "PymotoVerif.C11.eig_dense_adjoint_sum_realpart",
+    "PymotoVerif.C11.eig_sparse_eigval_adjoint", "PymotoVerif.C11.eig_sparse_eigval_is_derivative",
+    "PymotoVerif.C11.eig_eigval_derivative", "PymotoVerif.C11.eig_sparse_eigvec_mode_adjoint",
+    "PymotoVerif.C11.eig_sparse_eigvec_solver_indep", "PymotoVerif.C11.eig_sparse_eigvec_adjoint_sum",
+    "PymotoVerif.C11.eig_sparse_eigvec_mode_is_derivative", "PymotoVerif.C11.eig_sparse_sens_is_derivative",
+    "PymotoVerif.C11.eig_tangent_exists_unique",
 ]
 EXTRA_THEOREMS += [
     "PymotoVerif.C01Generic.einsum_additive", "PymotoVerif.C01Generic.einsum_homogeneous", "PymotoVerif.C01Generic.einsum_adjoint",
@@ -118,7 +125,21 @@ def probe_einsum_size1(ctx):
     return ((p.stdout + p.stderr).strip().split("\n")[-1][:200] or "witness still fails") if p.returncode != 0 else None
 
 
-FINDING_PROBES = {FINDING_KEY_EIG: probe_eig_sparse_hermitian, "einsum-size1-broadcast": probe_einsum_size1}
+def probe_eig_sparse_nonsymmetric(ctx):
+    import os
+    import subprocess
+    import sys
+    from ..common import VERIF
+    f = os.path.join(VERIF, "corpus", "defects", "pending", "c01_eigensolve_sparse_nonsymmetric.py")
+    p = subprocess.run([sys.executable, f], capture_output=True, text=True, timeout=600)
+    if p.returncode != 0:
+        lines = [l for l in p.stdout.strip().split("\n") if l.startswith("sparse") and "WRONG" in l]
+        return (lines[-1] if lines else "witness still fails")[:200]
+    return None
+
+
+FINDING_PROBES = {FINDING_KEY_EIG: probe_eig_sparse_hermitian, "einsum-size1-broadcast": probe_einsum_size1,
+                  "eigensolve-sparse-nonsymmetric-sens": probe_eig_sparse_nonsymmetric}
 
 
 def _bits(x):
